@@ -33,6 +33,7 @@ type World interface {
 	Query(loc string, q map[string]interface{}) ([]string, error)
 	Clear(loc string) error
 	Snapshot(loc string) string
+	KeySnapshot(loc string) string
 	Close()
 }
 
@@ -142,6 +143,9 @@ func (w *coreWorld) Query(loc string, q map[string]interface{}) ([]string, error
 	return lib.BindingsSetN(qr.Bss), nil
 }
 func (w *coreWorld) Clear(loc string) error { return w.locs[loc].Clear(w.ctx) }
+func (w *coreWorld) KeySnapshot(loc string) string {
+	return core.VerifKeyJSON(w.locs[loc].VerifState()) + "|" + lib.Canon(lib.Pairs(w.ctx, w.store, loc))
+}
 func (w *coreWorld) Snapshot(loc string) string {
 	return core.VerifDumpJSON(w.locs[loc].VerifState()) + "|" + lib.Canon(lib.Pairs(w.ctx, w.store, loc))
 }
@@ -238,6 +242,15 @@ func (w *sysWorld) Query(loc string, q map[string]interface{}) ([]string, error)
 	return lib.BindingsSetN(qr.Bss), nil
 }
 func (w *sysWorld) Clear(loc string) error { return w.sys.ClearLocation(w.ctx, loc) }
+// KeySnapshot is Snapshot for deduplication keys (includes hidden plain fields).
+func (w *sysWorld) KeySnapshot(loc string) string {
+	mem := "(not cached)"
+	if l := w.sys.VerifCachedLocation(loc); l != nil {
+		mem = core.VerifKeyJSON(l.VerifState())
+	}
+	return mem + "|" + lib.Canon(lib.Pairs(w.ctx, w.store, loc))
+}
+
 func (w *sysWorld) Snapshot(loc string) string {
 	mem := "(not cached)"
 	if l := w.sys.VerifCachedLocation(loc); l != nil {
